@@ -30,7 +30,12 @@ def run(res, tier, seed, replay):
         if got == "M": res.violation("a refused forced-boolean installation modified the target", case, got)
         elif got != want:
             res.violation(("will_return_boolean ACCEPTED a function whose return type is not bool" if got == "A" else f"will_return_boolean on a bool function gave {got}"), case, f"observed {got}, expected {want}")
-    res.cov["evaluations"] += len(fam); res.cov["distinct_nontrivial"] += len(distinct)
+    for key in ("BOOLGATE_UNCHECKED", "BOOLGATE_UNCHECKED_SAFEFORM"):
+        rowu = O["misc"].get(key, "")
+        for i, m in enumerate(fam):
+            got = rowu[i] if i < len(rowu) else "?"
+            if got != "B": res.violation("will_return_boolean on a target from the unchecked macros (empty signature) was not refused with the boolean-gate panic" + (" although the function does not return bool" if not m["returns_bool"] else ""), dict(type=m["rust"], form=key), got)
+    res.cov["evaluations"] += 3 * len(fam); res.cov["distinct_nontrivial"] += len(distinct)
     # the stub on the real CPU
     exe = reallib.build(res)
     n = 64 if tier == "quick" else 4096
@@ -52,6 +57,7 @@ def run(res, tier, seed, replay):
     if bins:
         r = random.Random(seed + 10)
         tr = gen.amd64_triples(r, 300 if tier == "quick" else 20000)
+        tr = [(f, j, k) for (f, j, k) in tr if abs(j - f) < 0x8000000]      # placements the allocator can produce (reach beyond is C01's claim)
         cases = [(f"x{i}", "amd64", "bool", f, j, i & 1) for i, (f, j, k) in enumerate(tr)] + \
                 [(f"a{i}", "arm64", "bool", f & ~3, (f & ~0xfff) + 0x1000 * r.randrange(-2000, 2000), i & 1) for i, (f, j, k) in enumerate(tr[:100]) if f > 0x1000000]
         impl = simlib.run_sim(bins, "debug", "linux", cases)
@@ -73,6 +79,7 @@ def run(res, tier, seed, replay):
                 ok2 = v.startswith("RETURNED") and int(v.split("x0=")[1].split()[0], 16) == c[5] and not (set(x for x in v.split("[")[1].rstrip("]").split(",") if x) - {"x0", "x9", "x10", "x11", "x12", "x13", "x14", "x15", "x16", "x17"})
             if not ok2: res.violation("the forced-boolean stub written by the implementation does not return exactly the value with the stack and callee-saved registers intact", case, v)
         res.cov["evaluations"] += len(cases)
-    res.cov["samples"] += [dict(type=fam[24]["rust"], gate=row[24] if len(row) > 24 else "?"), dict(type=fam[19]["rust"], gate=row[19] if len(row) > 19 else "?")]
+    ix = {m["name"]: i for i, m in enumerate(fam)}
+    res.cov["samples"] += [dict(type=fam[ix[n]]["rust"], gate=row[ix[n]] if len(row) > ix[n] else "?") for n in ("ret_fnbool", "ret_bool", "fnarg_bool")]
     if res.corr_diffs: res.broke("the model's boolean gate disagrees with the return type of the family member", json.dumps(res.corr_diffs[:4]))
     if res.unknown: res.broke("monitor could not decode bytes written by the implementation", json.dumps(res.unknown[:3]))
